@@ -265,8 +265,10 @@ package k8s
 // so the node lister returns nodes with pairwise distinct names (assumption of the List contract);
 // LNby maps a name to the node listed under it.
 //@ spec named(L []*v1.Node) bool = forall j :: 0 <= j && j < len(L) ==> L[j] != nil && LNby[L[j].Name] == L[j]
+//@ ghost LNok bool
 //@ iface k8s.NodeLister.List(l) (nodes, err)
-//@   modifies LNb, LNo, LNl, LNby
+//@   modifies LNb, LNo, LNl, LNby, LNok
+//@   ensures LNok == (err == nil)
 //@   ensures err == nil ==> named(nodes) && LNb == base(nodes) && LNo == off(nodes) && LNl == len(nodes)
 //@   ensures err == nil ==> (forall s string :: LNby[s] != nil ==> (exists i :: 0 <= i && i < len(nodes) && nodes[i] == LNby[s]))
 // nScans counts the scans started (every scan begins by listing the group's pods)
